@@ -31,7 +31,7 @@ Observed(o) ==
   LET M == {<<k, model'[k][1], model'[k][2]>> : k \in {x \in Keys : model'[x] # None}} IN
   /\ (o.len # Cardinality(M)) => Bad("len")
   /\ (SetOf(o.scan) # M \/ Len(o.scan) # Cardinality(M)) => Bad("scan-is-not-the-live-rows")
-  /\ (\E i \in 1 .. Len(o.scan) - 1 : o.scan[i][3] > o.scan[i + 1][3]) => Bad("scan-not-timestamp-ordered")
+  /\ (~KeepTs /\ \E i \in 1 .. Len(o.scan) - 1 : o.scan[i][3] > o.scan[i + 1][3]) => Bad("scan-not-timestamp-ordered")
   /\ (\E k \in Keys : o.get[k + 1] # (IF model'[k] = None THEN <<>> ELSE <<k, model'[k][1], model'[k][2]>>)) => Bad("get_row")
   /\ (\E i \in 1 .. Len(o.cons) : SetOf(o.cons[i].rows) # {r \in M : Holds(o.cons[i], r)}
                                   \/ Len(o.cons[i].rows) # Cardinality({r \in M : Holds(o.cons[i], r)})) => Bad("constrained-scan")
